@@ -45,7 +45,11 @@ def warm_start(
     pstart = f.variables["particle_count"][:-1].sum()
     pcount = f.variables["particle_count"][-1]
     pend = pstart + pcount
-    pid_max = np.max(f.variables["pid"][:]) + 1
+    # Number of particles released so far: the particle variables are written
+    # for all of them; the identifiers on file may lack dead particles
+    pid_max = len(f.dimensions["particle"]) if "particle" in f.dimensions else 0
+    if len(f.variables["pid"]) > 0:
+        pid_max = max(pid_max, int(np.max(f.variables["pid"][:])) + 1)
 
     logger.info("antall partikler = %s", pcount)
 
